@@ -215,7 +215,7 @@ def _install_alloc(e, W, P):
             lambda e_, a, c: AbsStr(content_of(_strip(e_, a[0]).id)))
 
 
-@obligation('C09.K1.manage_str', 'C09', programs=('core',))
+@obligation('C09.K1.manage_str', 'C09', programs=('core',), also=('C05',))
 def c09_manage_str(res, tier):
     """Allocator::manage_str from an arbitrary consistent intern table (with or without a collection triggered by the allocation):
     equal content returns the one existing object and allocates nothing; new content returns a fresh object with that content which
@@ -261,6 +261,9 @@ def c09_manage_str(res, tier):
             e.check(z3.Or(*[r.id == x for x in live]) if live else False, 'the new string is owned by the heap (nursery or promoted)')
             for d in e.path_state['dropped']:
                 e.check(r.id != d, 'the new string is not released by the collection its own allocation triggers')
+            e.check(z3.Not(z3.Select(W.marks(e), r.id)), 'the new object is unmarked once the allocation returns (a stale mark would hide its children from the next collection)')
+            n_owned = sum(1 for c in W.field(e, st.a, 'nursery_obj_heap').cells + W.field(e, st.a, 'obj_heap').cells if e.is_valid(c.get(e).id == r.id))
+            e.check(n_owned == 1, 'the new object is owned by exactly one heap list')
         # the table afterwards: has_str (real code) finds exactly the returned object
         h = e.call(g, [Ref(Cell(st.a)), AbsStr(src.s)])
         e.check(isinstance(h, EnumV) and h.tag == 1, 'has_str finds the content afterwards')
